@@ -2,6 +2,7 @@ CONSTANTS
   RATE = 8
   WIDTH = 12
   Mutants = {{"public_input"}, {"cfg.security_bits"}, {"cfg.num_challenges"}, {"fri.rate_bits"}, {"fri.cap_height"}, {"fri.proof_of_work_bits"}, {"fri.reduction_strategy"}, {"fri.num_query_rounds"}, {"trace_cap"}, {"auxiliary_polys_cap"}, {"constraint_evals"}, {"quotient_polys_cap"}, {"openings.local_values"}, {"openings.auxiliary_polys"}, {"openings.quotient_polys"}, {"openings.next_values"}, {"openings.auxiliary_polys_next"}, {"commit_cap.1"}, {"commit_cap.2"}, {"final_poly"}, {"pow_witness"}}
+  EncodeMutant = "none"
   ConfigSet = "one"
 INIT Init
 NEXT Next
